@@ -416,7 +416,7 @@ impl Arena {
           proof {
             assert(s1.list == l.remove(k));
           }
-//@after 1 /self\.pessimistic_dealloc\(st, data_end_offset, remaining\);/
+//@after 1 /_dealloc\(st, data_end_offset, remaining\);/
             proof {
               lemma_first_idx_bounds(s1.list, seg_node(data_end_offset as int, remaining as int).1, true);
               lemma_clear_of_list_insert(s1.list, first_idx(s1.list, seg_node(data_end_offset as int, remaining as int).1, true), seg_node(data_end_offset as int, remaining as int), n.0 as int, data_end_offset as int);
@@ -488,7 +488,7 @@ impl Arena {
           proof {
             assert(s1.list == l.remove(k));
           }
-//@after 1 /self\.optimistic_dealloc\(st, data_end_offset, remaining\);/
+//@after 1 /_dealloc\(st, data_end_offset, remaining\);/
             proof {
               lemma_first_idx_bounds(s1.list, seg_node(data_end_offset as int, remaining as int).1, false);
               lemma_clear_of_list_insert(s1.list, first_idx(s1.list, seg_node(data_end_offset as int, remaining as int).1, false), seg_node(data_end_offset as int, remaining as int), n.0 as int, data_end_offset as int);
